@@ -100,10 +100,13 @@ type c04Link struct {
 	Node   int `json:"node"`   // which local controller (0/1)
 	Remote int `json:"remote"` // key index of the remote: 1..3 remote identities, 0 or 5 local identities
 	Addr   int `json:"addr"`
+	// Shared: the link identifier does not depend on the remote peer (filled in from the case)
+	Shared bool `json:"shared,omitempty"`
 }
 
 type c04Op struct {
-	// Op: est, lost, stream
+	// Op: est, lost, stream, pend (an incoming stream whose header has not arrived yet), feed (the headers of all
+	// pending streams arrive now - possibly after their link is gone)
 	Op    string `json:"op"`
 	L     int    `json:"l"`
 	Proto int    `json:"proto"`
@@ -119,6 +122,8 @@ type c04Case struct {
 	// the identity the bus provides); every link then belongs to that controller
 	AnonController bool `json:"anon_controller,omitempty"`
 	AcceptErr      int  `json:"accept_err,omitempty"`
+	// SharedUUID: link identifiers are per (controller, address), so links with different remote peers collide
+	SharedUUID bool `json:"shared_uuid,omitempty"`
 }
 
 var localKeys = []int{0, 5}
@@ -128,6 +133,7 @@ func genC04(t *rapid.T) c04Case {
 	c.EarlyRequests = rapid.Bool().Draw(t, "early")
 	c.AnonController = rapid.IntRange(0, 3).Draw(t, "anon") == 0
 	c.AcceptErr = rapid.IntRange(0, 4).Draw(t, "accepterr")
+	c.SharedUUID = rapid.IntRange(0, 2).Draw(t, "shareduuid") == 0
 	nl := rapid.IntRange(2, 5).Draw(t, "nlinks")
 	for i := 0; i < nl; i++ {
 		c.Links = append(c.Links, c04Link{
@@ -136,10 +142,17 @@ func genC04(t *rapid.T) c04Case {
 			Addr:   rapid.IntRange(0, 1).Draw(t, "addr"),
 		})
 	}
+	if c.SharedUUID && rapid.Bool().Draw(t, "latepattern") {
+		// a link goes away while one of its incoming streams has not sent its header yet; the header arrives late; then
+		// another peer's link comes up under the same identifier
+		c.Links[0] = c04Link{Node: 0, Remote: 1, Addr: 0}
+		c.Links[1] = c04Link{Node: 0, Remote: 2, Addr: 0}
+		c.Ops = append(c.Ops, c04Op{Op: "est", L: 0}, c04Op{Op: "pend", L: 0}, c04Op{Op: "lost", L: 0}, c04Op{Op: "feed"}, c04Op{Op: "est", L: 1})
+	}
 	n := rapid.IntRange(3, 12).Draw(t, "nops")
 	for i := 0; i < n; i++ {
 		c.Ops = append(c.Ops, c04Op{
-			Op:    rapid.SampledFrom([]string{"est", "est", "est", "lost", "stream", "stream"}).Draw(t, "op"),
+			Op:    rapid.SampledFrom([]string{"est", "est", "est", "lost", "stream", "stream", "pend", "feed"}).Draw(t, "op"),
 			L:     rapid.IntRange(0, nl-1).Draw(t, "l"),
 			Proto: rapid.IntRange(0, 4).Draw(t, "proto"),
 		})
@@ -147,11 +160,24 @@ func genC04(t *rapid.T) c04Case {
 	return c
 }
 
-func (l c04Link) uuid() uint64 { return uint64(2000 + l.Node*100 + l.Remote*10 + l.Addr) }
+func (l c04Link) uuid() uint64 {
+	if l.Shared {
+		// links of one controller at one address share the identifier whoever the remote peer is
+		return uint64(2000 + l.Node*100 + l.Addr)
+	}
+	return uint64(2000 + l.Node*100 + l.Remote*10 + l.Addr)
+}
 
 var c04Protos = []string{"verif/p0", "verif/p1", "verif/é", " verif/p0", "verif/p1\n"}
 
 func checkC04(c c04Case) (o vstat.Outcome) {
+	if c.SharedUUID {
+		c.Links = append([]c04Link{}, c.Links...)
+		for i := range c.Links {
+			c.Links[i].Shared = true
+		}
+		o.Classes = append(o.Classes, "link-ids-shared-across-remotes")
+	}
 	localKeys := localKeys
 	if c.AnonController {
 		localKeys = []int{0}
@@ -242,6 +268,17 @@ func checkC04(c c04Case) (o vstat.Outcome) {
 	}
 	var sent []sentStream
 	multiRemote := false
+	type pendingStream struct {
+		l     int
+		w     *fakes.Stream
+		proto string
+	}
+	var pending []pendingStream
+	defer func() {
+		for _, ps := range pending {
+			_ = ps.w.Close()
+		}
+	}()
 	var hist []string
 	for _, op := range c.Ops {
 		l := c.Links[op.L]
@@ -270,6 +307,28 @@ func checkC04(c c04Case) (o vstat.Outcome) {
 			n.handler.HandleLinkLost(links[op.L])
 			delete(current, l.uuid())
 			dead[op.L] = true
+		case "pend":
+			if cur, ok := current[l.uuid()]; !ok || cur != op.L {
+				continue
+			}
+			a, b := fakes.NewStreamPair()
+			links[op.L].PushStream(a)
+			pending = append(pending, pendingStream{l: op.L, w: b, proto: c04Protos[op.Proto]})
+			time.Sleep(2 * time.Millisecond)
+		case "feed":
+			for _, ps := range pending {
+				hdr := transport_controller.VerifMarshalStreamEstablishHeader(transport_controller.NewStreamEstablish(protocol.ID(ps.proto)))
+				w := ps.w
+				go func() {
+					_ = w.SetWriteDeadline(time.Now().Add(300 * time.Millisecond))
+					_, _ = w.Write(append(append([]byte{}, hdr...), []byte("late-payload")...))
+				}()
+			}
+			if len(pending) != 0 {
+				o.Classes = append(o.Classes, "late-stream-header")
+				time.Sleep(10 * time.Millisecond)
+			}
+			pending = nil
 		case "stream":
 			if cur, ok := current[l.uuid()]; !ok || cur != op.L {
 				continue
@@ -367,17 +426,30 @@ func checkC04(c c04Case) (o vstat.Outcome) {
 		o.Classes = append(o.Classes, "streams")
 		waitFor(5*time.Second, func() bool {
 			_, recs := sink.snapshot()
-			if len(recs) < len(sent) {
-				return false
-			}
+			n := 0
 			for _, rc := range recs {
-				if !rc.read {
-					return false
+				for i := range sent {
+					if rc.read && bytes.Equal(sent[i].pay, rc.payload) {
+						n++
+					}
 				}
 			}
-			return true
+			return n >= len(sent)
 		})
-		_, recs := sink.snapshot()
+		_, allRecs := sink.snapshot()
+		var recs []streamRecord
+		for _, rec := range allRecs {
+			if string(rec.payload) == "late-payload" || (!rec.read && len(rec.payload) == 0 && len(allRecs) > len(sent)) {
+				// a stream whose header arrived late (possibly after its link was gone): whether it is still dispatched is
+				// not asserted, but what it reports must be consistent with itself
+				if rec.msPeer != rec.linkRemote || rec.dirRemote != rec.linkRemote || rec.dirLocal != rec.linkLocal {
+					o.V = vstat.Viol("stream-wrong-peer", "a late stream reports peer=%s on a link with remote %s, looked up for (%s,%s)", rec.msPeer, rec.linkRemote, rec.dirLocal, rec.dirRemote)
+					return
+				}
+				continue
+			}
+			recs = append(recs, rec)
+		}
 		if len(recs) != len(sent) {
 			o.V = vstat.Viol("stream-not-delivered", "%d streams carried a valid header for a handled protocol, %d reached the handler", len(sent), len(recs))
 			return
@@ -448,7 +520,7 @@ func genC07d(t *rapid.T) c07dCase {
 	return c07dCase{
 		Pid:       pidGen.Draw(t, "pid"),
 		PreRemote: rapid.SampledFrom([]int{0, 0, 1, 2, 3}).Draw(t, "preremote"),
-		Kind:      rapid.SampledFrom([]string{"valid", "valid", "valid", "empty-pid", "bad-utf8", "len-zero", "len-over", "truncated", "not-proto"}).Draw(t, "kind"),
+		Kind:      rapid.SampledFrom([]string{"valid", "valid", "valid", "empty-pid", "bad-utf8", "len-zero", "len-over", "truncated", "not-proto", "inner-overrun"}).Draw(t, "kind"),
 		PidLen:    rapid.SampledFrom([]int{1, 2, 5, 30, 121, 122, 123, 200, 5000}).Draw(t, "pidlen"),
 		Payload:   rapid.SampledFrom([]int{0, 1, 17, 300}).Draw(t, "payload"),
 		Remote:    rapid.IntRange(1, 3).Draw(t, "remote"),
@@ -501,6 +573,10 @@ func checkC07d(c c07dCase) (o vstat.Outcome) {
 		data = append([]byte{0xa1, 0x8d, 0x06, 0x0a}, bytes.Repeat([]byte{0x61}, 64)...) // 100001
 	case "truncated":
 		data = good[:len(good)-1]
+	case "inner-overrun":
+		// consistent outer length, but the protocol-id field announces more bytes than the body holds
+		body := append([]byte{0x0a, 20}, []byte("verif/short")...)
+		data = append(append([]byte{byte(len(body))}, body...), pay...)
 	case "not-proto":
 		data = append([]byte{0x05, 0xff, 0xff, 0xff, 0xff, 0xff}, pay...)
 	}
